@@ -35,9 +35,15 @@ def sample_option_sets(rng, n, newline_space=False):
 
 def has_quote_conflict(d, quote):
     """the documented exclusion: a string value containing the output quote character"""
+    import re
     def walk(x):
         if isinstance(x, str):
-            return quote in x
+            # the delimiters of a case-insensitive comparison string ('text'i / "text"i) are syntax, written as they are; an
+            # ESCAPED quote is not a conflict either (the documentation excludes unescaped occurrences only)
+            m = re.match(r"""^(["'])(.*)\1i$""", x, re.S)
+            if m:
+                x = m.group(2)
+            return re.search(r"(?<!\\)" + re.escape(quote), x) is not None
         if isinstance(x, dict):
             return any(walk(k) or walk(v) for k, v in x.items() if k not in ("__position__",))
         if isinstance(x, (list, tuple)):
